@@ -128,7 +128,7 @@ def gen_cand_seg(args):
             if lm:
                 # large, non-contiguous label values (products of two labels overflow 16 bits)
                 seg = [[lm[v] for v in f] for f in seg]
-            yield {"seg": seg, "D": D, "sx": sx, "dtype": args.get("dtype", "uint16")}
+            yield {"seg": seg, "D": D, "sx": sx, "dtype": args.get("dtype", "uint16"), "axis": args.get("axis", "x")}
 
 
 def run_cand_seg(x):
@@ -137,10 +137,19 @@ def run_cand_seg(x):
     seg = np.array(x["seg"], dtype=np.dtype(x.get("dtype", "uint16")))
     T, PX = seg.shape
     sx = x["sx"]
-    g = compute_graph_from_seg(seg.reshape(T, 1, PX), x["D"], iou=True, scale=None if sx == 1 else [1, 1, sx])
+    if x.get("axis") == "z":
+        # 3D + t: the row of PX pixels lies along z (the plane index), scaled by sx; y = x = 0
+        g = compute_graph_from_seg(seg.reshape(T, PX, 1, 1), x["D"], iou=True, scale=None if sx == 1 else [1, sx, 1, 1])
+    else:
+        g = compute_graph_from_seg(seg.reshape(T, 1, PX), x["D"], iou=True, scale=None if sx == 1 else [1, 1, sx])
     nodes = []
     for n, a in g.nodes(data=True):
-        y, xx = [Fraction(float(v)).limit_denominator(64) for v in a["pos"]]
+        pos = [Fraction(float(v)).limit_denominator(64) for v in a["pos"]]
+        if x.get("axis") == "z":
+            # reported as (y, x) = (the two coordinates that must be 0 - their sum, the coordinate along the row)
+            y, xx = pos[1] + pos[2], pos[0]
+        else:
+            y, xx = pos
         area = Fraction(float(a["area"])).limit_denominator(64)
         nodes.append([int(n), int(a["time"]), area.numerator if area.denominator == 1 else -1,
                       y.numerator, y.denominator, xx.numerator, xx.denominator])
@@ -220,6 +229,7 @@ def gen_relabel(args):
 
 def run_relabel(x):
     import networkx as nx
+    x["extra"] = 0          # non-zero pixels outside the frames of the universe (embedded variants)
     seg = np.array(x["seg"], dtype=np.uint16)
     T, PX = seg.shape
     nodes = x["nodes"]
@@ -252,6 +262,36 @@ def run_relabel(x):
         nm = {"id": "id", "time": "time", "seg_id": "seg_id", "parent_id": "parent_id"}
         if x["via"] == "dfpos":
             nm["pos"] = ["y", "x"]
+        if x["via"] == "tiffdir":
+            # the array comes from a FOLDER of per-frame TIFFs with unpadded frame numbers (frame_0 .. frame_11):
+            # abstract frames 0, 1 are real frames 2, 10 of 12, the others are empty
+            import shutil
+            import tempfile
+            from pathlib import Path
+
+            import tifffile
+            from funtracks.import_export.csv._import import CSVTracksBuilder
+            tmap, NF = [2, 10], 12
+            d = Path(tempfile.mkdtemp(prefix="vf_tif_"))
+            try:
+                for k in range(NF):
+                    fr = np.zeros((1, PX), dtype=np.uint16)
+                    if k in tmap:
+                        fr[0] = seg[tmap.index(k)]
+                    tifffile.imwrite(d / f"frame_{k}.tif", fr)
+                df["time"] = [tmap[n[1]] for n in nodes]
+                b = CSVTracksBuilder()
+                b.read_header(df)
+                b.node_name_map = nm
+                b.edge_name_map = None
+                tr = b.build(df, d)
+                full = np.asarray(tr.segmentation).reshape(NF, PX)
+            finally:
+                shutil.rmtree(d, ignore_errors=True)
+            x["out"] = [[int(v) for v in full[k]] for k in tmap]
+            x["extra"] = int(np.count_nonzero(full)) - int(np.count_nonzero(full[tmap]))
+            x["gnodes"] = sorted(int(n) for n in tr.graph.nodes)
+            return x
         if x["via"] == "builder":
             # one builder: prepare() sees ANOTHER array (frames swapped), build() gets the real one
             from funtracks.import_export.csv._import import CSVTracksBuilder
